@@ -2,6 +2,8 @@
 package main
 
 import (
+	"runtime/debug"
+	"runtime/pprof"
 	"crypto/sha256"
 	"encoding/json"
 	"flag"
@@ -104,7 +106,16 @@ func main() {
 		maxDepth = flag.Int("maxdepth", 300, "call depth bound (exceeding it is reported as unbounded recursion)")
 		params   = flag.String("params", "", "comma separated name=int harness parameters (verifParam)")
 	)
+	cpuProf := flag.String("cpuprofile", "", "write a CPU profile of the engine (development aid)")
 	flag.Parse()
+	debug.SetGCPercent(400) // many short-lived values per path; memory is not the constraint
+	if *cpuProf != "" {
+		f, err := os.Create(*cpuProf)
+		if err == nil {
+			_ = pprof.StartCPUProfile(f)
+			defer pprof.StopCPUProfile()
+		}
+	}
 	paramMap := map[string]int{}
 	if *params != "" {
 		for _, kv := range strings.Split(*params, ",") {
@@ -348,6 +359,9 @@ func main() {
 	fmt.Fprintf(os.Stderr, "gosmt %s: status=%s paths=%d (end %d, assume %d, panic %d) asserts=%d viol=%d unsupported=%d errors=%d instr=%d feasQ=%d assertQ=%d solver=%.1fs wall=%.1fs load=%.1fs\n",
 		*run, res.Status, res.Paths, res.PathsEnd, res.PathsAssume, res.PathsPanic, len(res.Asserts), len(res.Violations), len(res.Unsupported), len(res.Errors),
 		res.Instrs, res.FeasQueries, res.AssertQueries, res.SolverWallS, res.WallS, loadS)
+	if os.Getenv("GOSMT_QSTATS") != "" {
+		fmt.Fprintf(os.Stderr, "  QSTATS %v\n", res.ByTag)
+	}
 	for k, v := range res.Unsupported {
 		fmt.Fprintf(os.Stderr, "  UNSUPPORTED x%d: %s\n", v, k)
 	}
@@ -360,6 +374,7 @@ func main() {
 	for _, v := range res.Violations {
 		fmt.Fprintf(os.Stderr, "  VIOLATION-CANDIDATE %s/%s %s vec=%v\n", v.Kind, v.Label, v.Msg, v.Vector)
 	}
+	pprof.StopCPUProfile()
 	switch res.Status {
 	case "violation":
 		os.Exit(1)
